@@ -254,10 +254,16 @@ func OnProxyConnectResponse(_ context.Context, _ *url.URL, req *http.Request, co
 	return &connectError{res}
 }
 
-func maybeConnectErrorResponse(err error) *http.Response {
+// maybeConnectErrorResponse returns the upstream proxy's CONNECT rejection carried by err, if any,
+// as the answer to req. The response may have been built for the transport's own CONNECT request.
+func maybeConnectErrorResponse(req *http.Request, err error) *http.Response {
 	var martianErr *connectError
-	if errors.As(err, &martianErr) {
-		return martianErr.ConnectResponse()
+	if !errors.As(err, &martianErr) {
+		return nil
 	}
-	return nil
+	res := martianErr.ConnectResponse()
+	res.Request = req
+	res.Close = req.Close
+	res.Proto, res.ProtoMajor, res.ProtoMinor = req.Proto, req.ProtoMajor, req.ProtoMinor
+	return res
 }
